@@ -281,7 +281,7 @@ class Ribosome:
 
         # Check required variables
         for var_name in mrna.get_required_variables():
-            if var_name not in context:
+            if var_name not in context and not self._bound_by_loops(var_name, mrna.sequence, context):
                 msg = f"Missing required variable: {var_name}"
                 if self.strict:
                     self._errors_count += 1
@@ -306,6 +306,31 @@ class Ribosome:
             variables_bound=context,
             warnings=warnings
         )
+
+    def _bound_by_loops(self, var_name: str, sequence: str, context: dict[str, Any]) -> bool:
+        """
+        True if every {{var_name}} slot sits inside an {{#each}} body that binds it.
+
+        A loop binds item/index/first/last and the keys shared by all of its dict
+        items, so those names are not missing even though the context lacks them.
+        """
+        slot = f"{{{{{var_name}}}}}"
+
+        def drop_binding_loops(match: re.Match) -> str:
+            if var_name in ('item', 'index', 'first', 'last'):
+                return ""
+            items = context.get(match.group(1), [])
+            if isinstance(items, (list, tuple)) and items and all(
+                isinstance(item, dict) and var_name in item for item in items
+            ):
+                return ""
+            return match.group(0)
+
+        rest = re.sub(
+            r'\{\{#each\s+(\w+)\}\}(.*?)\{\{/each\}\}',
+            drop_binding_loops, sequence, flags=re.DOTALL
+        )
+        return slot in sequence and slot not in rest
 
     def synthesize(self, sequence: str, **context: Any) -> Protein:
         """
